@@ -12,6 +12,8 @@ for id in "$@"; do
     mkdir -p "$dst"
     cp "$src"/patch.diff "$src"/meta.json "$dst"/ 2>/dev/null
     cp "$src"/*.rs "$src"/*.md "$src"/*.sh "$dst"/ 2>/dev/null
+    # unit-level demonstration (crate-private code)? the agent's demo_cmd then copies it into the task tests
+    if grep -q "executor/task/tests" "$src/meta.json" 2>/dev/null; then ls "$src"/demo_*.rs | xargs -n1 basename | sed 's/\.rs$//' > "$dst/UNIT_DEMOS"; fi
     /verif/tools/confirm_mutant.sh "$dst" "$(basename $dst)" > /tmp/mv-confirm-$(basename $dst).log 2>&1
     echo "$(basename $dst): $(cat $dst/confirm.json | tr '\n' ' ')"
   done
